@@ -4,7 +4,7 @@ META = {
     "property": "C17",
     "level": "exploration",
     "rule": (
-        "case i of seed s is generated from default_rng([s, i]); i%4 selects the kind: "
+        "case i of seed s is generated from default_rng([s, i]); (i + i//16)%4 selects the kind: "
         "0 export of a random field (1-4 components, 1-4-d mesh, named dims/units, "
         "float/int/complex dtypes of several widths) checked against generator-side data "
         "and import(export(f)) == f; 1 import after removing all or a random subset of the "
@@ -15,7 +15,7 @@ META = {
         "class, removed attributes / perturbation class, scale decade, mesh signature); "
         "non-trivial when some axis has >= 2 cells."
     ),
-    "cases": {"quick": 480, "thorough": 24000},
+    "cases": {"quick": 800, "thorough": 24000},
     "workers": {"quick": 8, "thorough": 16},
     "timeout": {"quick": 600, "thorough": 5400},
     "deciding": [
@@ -346,7 +346,7 @@ def rejections(ctx):
 
 
 def run_case(ctx, i):
-    kind = i % 4
+    kind = ig.kind_of(i)
     if kind == 0:
         export_import(ctx)
     elif kind == 1:
